@@ -557,6 +557,15 @@ theorem fieldAny_good (w : W) (idx tag : Nat) (data : Bytes) (hw : WInv w) : Goo
       | panic => exact absurd rfl hg.2
       | badop => exact hg
 
+theorem writeFail_good (w : W) (idx : Nat) (hw : WInv w) : Good (writeFail w idx) := by
+  unfold writeFail
+  cases he : w.err with
+  | some e => exact Good_err w e he
+  | none =>
+    obtain ⟨s, hs, _⟩ := hw he
+    simp only [hs]
+    exact Good_failOut w idx
+
 theorem free_good (w : W) : Good (free w) := by
   unfold free
   cases hc : close w with
@@ -711,6 +720,16 @@ theorem step_good (s : Sess) (idx : Nat) (c : Call) (hs : WInv s.w) (hc : c.noCo
       split
       · rw [killHandle_w]; exact hg.1
       · exact hg.1
+  | fwfail h =>
+    simp only [step]
+    split
+    · exact ⟨hs, by simp⟩
+    · exact onHandle_good s _ _ hs (fun w hw => writeFail_good w idx hw)
+  | ewfail h =>
+    simp only [step]
+    split
+    · exact ⟨hs, by simp⟩
+    · exact onHandle_good s _ _ hs (fun w hw => writeFail_good w idx hw)
   | err =>
     simp only [step]
     refine ⟨hs, ?_⟩
